@@ -329,7 +329,7 @@ func dkgTorsionKernelVectors(run *mon.Run) {
 	job := 0
 	for gi, g := range grid {
 		n, t := g[0], g[1]
-		for rep := 0; rep < run.Pick(6, 40); rep++ {
+		for rep := 0; rep < run.Pick(7, 42); rep++ {
 			job++
 			wg.Add(1)
 			sem <- struct{}{}
@@ -358,7 +358,17 @@ func dkgTorsionKernelVectors(run *mon.Run) {
 				second := "none"
 				if t+1 >= 3 {
 					w2 := make([]int64, t+1)
-					switch rep % 5 {
+					switch rep % 7 {
+					case 5:
+						second = "linear-ascending"
+						for i := range w2 {
+							w2[i] = int64(i+1) % q
+						}
+					case 6:
+						second = "linear-descending"
+						for i := range w2 {
+							w2[i] = int64(t+1-i) % q
+						}
 					case 0:
 						second = "sum"
 						for i := range w2 {
